@@ -76,10 +76,11 @@ Section FramingP.
   Variables (d0 : N) (dr : list N).
   Let D := d0 :: dr.
 
-  Hypothesis Hrt : forall p, parse (enc p) = Some p.
-  Hypothesis Hclean : forall p, ~ In d0 (enc p).
-  Hypothesis Hpre : forall p q r, enc p = q ++ r -> r <> [] -> parse q = None.
-  Hypothesis Hext : forall p t t', D = t ++ t' -> t <> [] -> t' <> [] -> parse (enc p ++ t) = None.
+  Variable ok : P -> Prop.                   (* the packets honest peers send (JSON objects) *)
+  Hypothesis Hrt : forall p, ok p -> parse (enc p) = Some p.
+  Hypothesis Hclean : forall p, ok p -> ~ In d0 (enc p).
+  Hypothesis Hpre : forall p q r, ok p -> enc p = q ++ r -> r <> [] -> parse q = None.
+  Hypothesis Hext : forall p t t', ok p -> D = t ++ t' -> t <> [] -> t' <> [] -> parse (enc p ++ t) = None.
   Hypothesis Hdel : forall t t', D = t ++ t' -> t' <> [] -> parse t = None.
 
   Notation proc := (proc P parse).
@@ -87,14 +88,14 @@ Section FramingP.
   Notation run := (run P parse D).
   Notation frames := (frames P D enc).
 
-  Definition good (e : list N) : Prop := e = [] \/ exists p, e = enc p.
+  Definition good (e : list N) : Prop := e = [] \/ exists p, ok p /\ e = enc p.
 
   Definition Inv (buf rest : list N) (exp : list P) : Prop :=
     (buf = [] /\ rest = [] /\ exp = []) \/
-    (exists e pend, good e /\ buf ++ rest = e ++ D ++ frames pend /\
+    (exists e pend, good e /\ Forall ok pend /\ buf ++ rest = e ++ D ++ frames pend /\
                     exp = opt_list (parse e) ++ pend /\ length buf < length e + length D).
 
-  Lemma Inv_right : forall buf rest e pend exp, good e -> buf ++ rest = e ++ D ++ frames pend ->
+  Lemma Inv_right : forall buf rest e pend exp, good e -> Forall ok pend -> buf ++ rest = e ++ D ++ frames pend ->
     exp = opt_list (parse e) ++ pend -> length buf < length e + length D -> Inv buf rest exp.
   Proof. intros. right. exists e, pend. auto. Qed.
 
@@ -102,7 +103,7 @@ Section FramingP.
   Proof. apply (Hdel [] D); [reflexivity|discriminate]. Qed.
 
   Lemma good_clean : forall e, good e -> ~ In d0 e.
-  Proof. intros e [->|[p ->]]; [intros []|apply Hclean]. Qed.
+  Proof. intros e [->|[p [Hok ->]]]; [intros []|apply Hclean; exact Hok]. Qed.
 
   Lemma proc_cons : forall x ps, ps <> [] ->
     proc (x :: ps) = (opt_list (parse x) ++ fst (proc ps), snd (proc ps)).
@@ -129,41 +130,41 @@ Section FramingP.
   Qed.
 
   (* u ends inside e (or exactly at its end) *)
-  Lemma caseB : forall pend e u l rest', good e -> e = u ++ l -> rest' = l ++ D ++ frames pend ->
+  Lemma caseB : forall pend e u l rest', good e -> Forall ok pend -> e = u ++ l -> rest' = l ++ D ++ frames pend ->
     Post e pend u rest'.
   Proof.
-    intros pend e u l rest' Hg He Hr. pose proof (good_clean e Hg) as Hce. unfold Post.
+    intros pend e u l rest' Hg Hok He Hr. pose proof (good_clean e Hg) as Hce. unfold Post.
     destruct l as [|l0 l].
     - rewrite app_nil_r in He. subst u. simpl in Hr.
       rewrite (split_clean1 e Hce), proc_single.
-      destruct Hg as [->|[p ->]].
+      destruct Hg as [->|[p [Hp ->]]].
       + rewrite parse_nil. exists [], [], pend.
         split; [reflexivity|split; [reflexivity|]].
         apply (Inv_right _ _ [] pend);
-          [left; reflexivity|simpl; rewrite Hr; reflexivity|rewrite parse_nil; reflexivity|simpl; lia].
-      + rewrite Hrt. exists [p], [], pend.
+          [left; reflexivity|exact Hok|simpl; rewrite Hr; reflexivity|rewrite parse_nil; reflexivity|simpl; lia].
+      + rewrite (Hrt p Hp). exists [p], [], pend.
         split; [reflexivity|split; [reflexivity|]].
         apply (Inv_right _ _ [] pend);
-          [left; reflexivity|simpl; rewrite Hr; reflexivity|rewrite parse_nil; reflexivity|simpl; lia].
-    - destruct Hg as [->|[p Hp]]; [destruct u; discriminate He|].
+          [left; reflexivity|exact Hok|simpl; rewrite Hr; reflexivity|rewrite parse_nil; reflexivity|simpl; lia].
+    - destruct Hg as [->|[p [Hpk Hp]]]; [destruct u; discriminate He|].
       assert (Hcu : ~ In d0 u). { intros Hi. apply Hce. rewrite He. apply in_or_app. left. exact Hi. }
       rewrite (split_clean1 u Hcu), proc_single.
-      rewrite (Hpre p u (l0 :: l)) by (try discriminate; rewrite <- Hp; exact He).
+      rewrite (Hpre p u (l0 :: l) Hpk) by (try discriminate; rewrite <- Hp; exact He).
       exists [], u, (opt_list (parse e) ++ pend).
       split; [reflexivity|split; [reflexivity|]].
       apply (Inv_right _ _ e pend);
-        [right; exists p; exact Hp| |reflexivity|rewrite He, app_length; simpl; lia].
+        [right; exists p; split; assumption|exact Hok| |reflexivity|rewrite He, app_length; simpl; lia].
       rewrite Hr. rewrite He at 1. rewrite <- app_assoc. reflexivity.
   Qed.
 
   (* u ends inside the delimiter that follows e *)
-  Lemma caseA1 : forall pend e u l m0 m rest', good e -> u = e ++ l -> D = l ++ m0 :: m ->
+  Lemma caseA1 : forall pend e u l m0 m rest', good e -> Forall ok pend -> u = e ++ l -> D = l ++ m0 :: m ->
     rest' = (m0 :: m) ++ frames pend -> Post e pend u rest'.
   Proof.
-    intros pend e u l m0 m rest' Hg Hu HD Hm. pose proof (good_clean e Hg) as Hce. unfold Post.
+    intros pend e u l m0 m rest' Hg Hok Hu HD Hm. pose proof (good_clean e Hg) as Hce. unfold Post.
     destruct l as [|l0 l].
     - rewrite app_nil_r in Hu. subst u.
-      apply (caseB pend e e [] rest' Hg); [rewrite app_nil_r; reflexivity|].
+      apply (caseB pend e e [] rest' Hg Hok); [rewrite app_nil_r; reflexivity|].
       rewrite Hm, HD. reflexivity.
     - assert (Hlen : length (l0 :: l) < length D) by (rewrite HD, app_length; simpl; lia).
       assert (Hsp : split D u = [e ++ l0 :: l]).
@@ -171,12 +172,12 @@ Section FramingP.
         rewrite pieces_short by exact Hlen. reflexivity. }
       rewrite Hsp, proc_single.
       assert (Hn : parse (e ++ l0 :: l) = None).
-      { destruct Hg as [->|[p ->]].
+      { destruct Hg as [->|[p [Hpk ->]]].
         - simpl. apply (Hdel (l0 :: l) (m0 :: m) HD). discriminate.
-        - apply (Hext p (l0 :: l) (m0 :: m) HD); discriminate. }
+        - apply (Hext p (l0 :: l) (m0 :: m) Hpk HD); discriminate. }
       rewrite Hn. exists [], (e ++ l0 :: l), (opt_list (parse e) ++ pend).
       split; [reflexivity|split; [reflexivity|]].
-      apply (Inv_right _ _ e pend); [exact Hg| |reflexivity|rewrite app_length; lia].
+      apply (Inv_right _ _ e pend); [exact Hg|exact Hok| |reflexivity|rewrite app_length; lia].
       rewrite Hm. transitivity (e ++ ((l0 :: l) ++ m0 :: m) ++ frames pend).
       { rewrite <- !app_assoc. reflexivity. }
       rewrite <- HD. reflexivity.
@@ -203,11 +204,12 @@ Section FramingP.
 
   (* what one call of add_buffer does when buffer ++ data = u is a prefix of an honest stream that
      starts with [e], the delimiter and complete frames *)
-  Lemma G : forall pend e u rest', good e -> u ++ rest' = e ++ D ++ frames pend -> Post e pend u rest'.
+  Lemma G : forall pend e u rest', good e -> Forall ok pend -> u ++ rest' = e ++ D ++ frames pend ->
+    Post e pend u rest'.
   Proof.
-    induction pend as [|p' pend IH]; intros e u rest' Hg H.
+    induction pend as [|p' pend IH]; intros e u rest' Hg Hok H.
     all: apply app_eq_app in H; destruct H as [l [[Hu Hr]|[He Hr]]].
-    all: try (apply (caseB _ e u l rest' Hg He Hr)).
+    all: try (apply (caseB _ e u l rest' Hg Hok He Hr)).
     all: symmetry in Hr; apply app_eq_app in Hr; destruct Hr as [m [[Hl Hm]|[HD Hm]]].
     - (* pend = [], l = D ++ m *)
       apply (caseA2 e [] u m rest' Hg); [rewrite Hu, Hl; reflexivity|].
@@ -217,54 +219,87 @@ Section FramingP.
       + rewrite app_nil_r in HD. subst l. simpl in Hm. subst rest'.
         apply (caseA2 e [] u [] [] Hg); [rewrite Hu, app_nil_r; reflexivity|].
         exists [], [], []. split; [apply proc_empty|split; [reflexivity|left; auto]].
-      + apply (caseA1 [] e u l m0 m rest' Hg Hu HD Hm).
+      + apply (caseA1 [] e u l m0 m rest' Hg Hok Hu HD Hm).
     - (* pend = p' :: pend, l = D ++ m *)
+      pose proof (Forall_inv Hok) as Hp'. pose proof (Forall_inv_tail Hok) as Hok'.
       apply (caseA2 e (p' :: pend) u m rest' Hg); [rewrite Hu, Hl; reflexivity|].
       rewrite frames_cons in Hm. symmetry in Hm.
-      destruct (IH (enc p') m rest' (or_intror (ex_intro _ p' eq_refl)) Hm) as (out & buf' & exp' & Hp & He & Hi).
+      destruct (IH (enc p') m rest' (or_intror (ex_intro _ p' (conj Hp' eq_refl))) Hok' Hm)
+        as (out & buf' & exp' & Hp & He & Hi).
       exists out, buf', exp'. split; [exact Hp|split; [|exact Hi]].
-      rewrite Hrt in He. exact He.
-    - destruct m as [|m0 m].
+      rewrite (Hrt p' Hp') in He. exact He.
+    - pose proof (Forall_inv Hok) as Hp'. pose proof (Forall_inv_tail Hok) as Hok'.
+      destruct m as [|m0 m].
       + rewrite app_nil_r in HD. subst l. simpl in Hm. subst rest'.
         apply (caseA2 e (p' :: pend) u [] _ Hg); [rewrite Hu, app_nil_r; reflexivity|].
         exists [], [], (p' :: pend). split; [apply proc_empty|split; [reflexivity|]].
         apply (Inv_right _ _ (enc p') pend);
-          [right; exists p'; reflexivity|simpl; apply frames_cons|rewrite Hrt; reflexivity|simpl; lia].
-      + apply (caseA1 (p' :: pend) e u l m0 m rest' Hg Hu HD Hm).
+          [right; exists p'; split; [exact Hp'|reflexivity]|exact Hok'|simpl; apply frames_cons
+          |rewrite (Hrt p' Hp'); reflexivity|simpl; lia].
+      + apply (caseA1 (p' :: pend) e u l m0 m rest' Hg Hok Hu HD Hm).
   Qed.
 
   Lemma step_inv : forall buf d rest' exp, Inv buf (d ++ rest') exp ->
     exists out buf' exp', feed buf d = (out, buf') /\ exp = out ++ exp' /\ Inv buf' rest' exp'.
   Proof.
-    intros buf d rest' exp [(Hb & Hr & He)|(e & pend & Hg & Hs & He & _)].
+    intros buf d rest' exp [(Hb & Hr & He)|(e & pend & Hg & Hok & Hs & He & _)].
     - apply app_eq_nil in Hr. destruct Hr as [-> ->]. subst buf exp.
       exists [], [], []. split; [|split; [reflexivity|left; auto]].
       unfold NodeProto.feed, split. simpl. rewrite parse_nil. reflexivity.
     - rewrite app_assoc in Hs.
-      destruct (G pend e (buf ++ d) rest' Hg Hs) as (out & buf' & exp' & Hp & Hx & Hi).
+      destruct (G pend e (buf ++ d) rest' Hg Hok Hs) as (out & buf' & exp' & Hp & Hx & Hi).
       exists out, buf', exp'. split; [exact Hp|split; [rewrite He; exact Hx|exact Hi]].
+  Qed.
+
+  Lemma Inv_end : forall buf exp, Inv buf [] exp -> buf = [] /\ exp = [].
+  Proof.
+    intros buf exp [(-> & _ & ->)|(e & pend & _ & _ & Hs & _ & Hl)]; [auto|].
+    rewrite app_nil_r in Hs. rewrite Hs, !app_length in Hl. lia.
+  Qed.
+
+  Lemma frames_app : forall a b, frames (a ++ b) = frames a ++ frames b.
+  Proof. intros a b. unfold NodeProto.frames. rewrite map_app, concat_app. reflexivity. Qed.
+
+  (* the writer appends complete frames to the stream that is still to be read *)
+  Lemma Inv_extend : forall buf rest exp ps, Forall ok ps -> Inv buf rest exp ->
+    Inv buf (rest ++ frames ps) (exp ++ ps).
+  Proof.
+    intros buf rest exp ps Hps [(-> & -> & ->)|(e & pend & Hg & Hok & Hs & He & Hl)].
+    - destruct ps as [|p ps]; [left; auto|]. inversion Hps as [|? ? Hp Hps']; subst.
+      apply (Inv_right _ _ (enc p) ps);
+        [right; exists p; split; [exact Hp|reflexivity]|exact Hps'|simpl; apply frames_cons
+        |rewrite (Hrt p Hp); reflexivity|simpl; lia].
+    - apply (Inv_right _ _ e (pend ++ ps)); [exact Hg|apply Forall_app; split; assumption| | |exact Hl].
+      + rewrite app_assoc, Hs, frames_app, <- !app_assoc. reflexivity.
+      + rewrite He, app_assoc. reflexivity.
+  Qed.
+
+  Lemma Inv_ok : forall buf rest exp, Inv buf rest exp -> Forall ok exp.
+  Proof.
+    intros buf rest exp [(_ & _ & ->)|(e & pend & Hg & Hok & _ & -> & _)]; [constructor|].
+    apply Forall_app. split; [|exact Hok].
+    destruct Hg as [->|[p [Hp ->]]]; [rewrite parse_nil; constructor|].
+    rewrite (Hrt p Hp). repeat constructor. exact Hp.
   Qed.
 
   Lemma run_inv : forall cs buf exp, Inv buf (concat cs) exp -> run buf cs = (exp, []).
   Proof.
     induction cs as [|c cs IH]; intros buf exp H.
-    - simpl in *. destruct H as [(-> & _ & ->)|(e & pend & _ & Hs & _ & Hl)]; [reflexivity|].
-      rewrite app_nil_r in Hs. rewrite Hs, !app_length in Hl. lia.
+    - simpl in *. destruct (Inv_end _ _ H) as [-> ->]. reflexivity.
     - simpl concat in H. destruct (step_inv buf c (concat cs) exp H) as (out & buf' & exp' & Hf & He & Hi).
       cbn [NodeProto.run]. rewrite Hf. rewrite (IH buf' exp' Hi). rewrite He. reflexivity.
   Qed.
 
-  Theorem framing : forall ps cs, concat cs = frames ps -> run [] cs = (ps, []).
+  Theorem framing : forall ps cs, Forall ok ps -> concat cs = frames ps -> run [] cs = (ps, []).
   Proof.
-    intros ps cs H. apply run_inv. rewrite H. destruct ps as [|p ps].
-    - left. auto.
-    - apply (Inv_right _ _ (enc p) ps);
-        [right; exists p; reflexivity|simpl; apply frames_cons|rewrite Hrt; reflexivity|simpl; lia].
+    intros ps cs Hok H. apply run_inv. rewrite H.
+    replace ps with ([] ++ ps) at 2 by reflexivity. rewrite <- (app_nil_l (frames ps)).
+    apply Inv_extend; [exact Hok|left; auto].
   Qed.
 
-  Corollary framing_cut_independent : forall ps cs1 cs2,
+  Corollary framing_cut_independent : forall ps cs1 cs2, Forall ok ps ->
     concat cs1 = frames ps -> concat cs2 = frames ps -> run [] cs1 = run [] cs2.
-  Proof. intros ps cs1 cs2 H1 H2. rewrite (framing ps cs1 H1), (framing ps cs2 H2). reflexivity. Qed.
+  Proof. intros ps cs1 cs2 Hok H1 H2. rewrite (framing ps cs1 Hok H1), (framing ps cs2 Hok H2). reflexivity. Qed.
 End FramingP.
 
 (* ------------------------------------------------------------------ strings, association lists *)
@@ -678,7 +713,12 @@ Module Toy.
 
   Theorem toy_framing : forall ps cs, concat cs = frames bool (d0 :: dr) enc ps ->
     run bool parse (d0 :: dr) [] cs = (ps, []).
-  Proof. exact (framing bool parse enc d0 dr Hrt Hclean Hpre Hext Hdel). Qed.
+  Proof.
+    intros ps cs H.
+    apply (framing bool parse enc d0 dr (fun _ => True) (fun p _ => Hrt p) (fun p _ => Hclean p)
+             (fun p q r _ => Hpre p q r) (fun p t t' _ => Hext p t t') Hdel ps cs); [|exact H].
+    apply Forall_forall. intros; exact I.
+  Qed.
 End Toy.
 
 (* ------------------------------------------------------------------ one concrete exchange *)
